@@ -672,6 +672,28 @@ func (e *Env) evalCall(n *ast.CallExpr) TV {
 		return TV{tt.Sel("v-s", "vstr", x.SS(), asTerm(arg(0).V)), tString}
 	case "boolof":
 		return TV{tt.Sel("v-b", "vbool", "Bool", asTerm(arg(0).V)), tBool}
+	case "membersKept", "noNewMembers":
+		// membersKept("map[K]V"): every member that a map of this type had in the pre-state is still there with the
+		// same value; noNewMembers("map[K]V"): every member a map has now was there in the pre-state with the same value
+		tn, _ := strconv.Unquote(n.Args[0].(*ast.BasicLit).Value)
+		dn, vn := "D$"+tn, "V$"+tn
+		ds, okd := x.heapSorts[dn]
+		vs, okv := x.heapSorts[vn]
+		if !okd {
+			return TV{tt.True(), tBool}
+		}
+		_, dinner := splitArraySort(ds)
+		ks, _ := splitArraySort(dinner)
+		m, k := tt.Bound("m", "Int"), tt.Bound("k", ks)
+		dOld, dNew := tt.Select(tt.Select(x.heap(e.old, dn, ds), m), k), tt.Select(tt.Select(x.heap(e.st, dn, ds), m), k)
+		same := tt.True()
+		if okv {
+			same = tt.Eq(tt.Select(tt.Select(x.heap(e.st, vn, vs), m), k), tt.Select(tt.Select(x.heap(e.old, vn, vs), m), k))
+		}
+		if fname == "membersKept" {
+			return TV{tt.Forall([]*Term{m, k}, tt.Implies(dOld, tt.And(dNew, same))), tBool}
+		}
+		return TV{tt.Forall([]*Term{m, k}, tt.Implies(dNew, tt.And(dOld, same))), tBool}
 	case "unchanged":
 		// unchanged(lvalue): every cell designated by the modifies-style lvalue (evaluated in the pre-state) holds
 		// the same value in the current state as in the pre-state
